@@ -405,3 +405,26 @@ for _existing in (False, True):
         ensures=[("C20.links_of_the_same_name_are_summed_into_one_annualised_flow_column", "len(d) == 1 and all(d[KEY][i] * dt == %sFLOW[i] for i in range(3))" % ("SO_FAR[i] * dt + " if _existing else "")),
                  ("C20+C08.the_links_own_array_is_not_modified", "d[KEY] is not link.vals and all(link.vals[i] == FLOW[i] for i in range(3))")],
         defined_props=["C20"])
+
+
+# ---- Result.check_for_nans (C02 as seen from a finished run): True exactly when some parameter, compartment, characteristic or link of some population holds a NaN or an infinity
+def _env_nans(bad_kind):
+    def make(it):
+        import numpy as np
+        from pyvc.interp import PyObjV
+        from pyvc import source
+
+        mm = source.load("model")
+        arr = lambda kind: np.array([1.0, float("nan") if bad_kind == kind + ":nan" else (float("inf") if bad_kind == kind + ":inf" else 2.0)])
+        var = lambda kind: PyObjV("Variable", mm, {"name": kind, "vals": arr(kind)})
+        pops = [PyObjV("Population", mm, {"name": "a", "pars": [var("a_par")], "comps": [var("a_comp")], "characs": [var("a_charac")], "links": [var("a_link")]}),
+                PyObjV("Population", mm, {"name": "b", "pars": [var("b_par")], "comps": [var("b_comp")], "characs": [], "links": [var("b_link")]})]
+        return {"self": PyObjV("Result", source.load("results"), {"model": PyObjV("Model", mm, {"pops": pops})}), "verbose": False}
+
+    return make
+
+
+_fin = {"np.isfinite": (lambda it, a: __import__("numpy").isfinite(a)), "np.all": (lambda it, a: bool(__import__("numpy").all(a)))}
+for _tag, _kind, _want in (("all_finite", None, False), ("nan_in_a_parameter", "a_par:nan", True), ("infinity_in_a_compartment_of_the_second_population", "b_comp:inf", True), ("nan_in_a_characteristic", "a_charac:nan", True), ("nan_in_a_link", "b_link:nan", True)):
+    CONTRACTS["results:Result.check_for_nans#%s" % _tag] = dict(schema=schema, make_env=_env_nans(_kind), call_stubs=_fin,
+                                                                ensures=[("C02.reports_exactly_whether_some_output_is_not_finite", "result is %r" % _want)], defined_props=["C02"])
